@@ -47,6 +47,25 @@ def same_value(got, exp):
     return same(got, exp)
 
 
+def fmt_value(v):
+    """python value -> the canonical G field of harness/xp.cpp (for '#expect' lines of replay files)"""
+    if v == "err" or v == "skip":
+        return "err"
+    if isinstance(v, bool):
+        return "b:%d" % v
+    if isinstance(v, float):
+        return "n:" + ("nan" if v != v else xpgen.dbits(v))
+    if isinstance(v, str):
+        return "s:" + xpgen.tok(v)
+    if any(isinstance(x, tuple) for x in v):
+        return "ns:?"
+    return "ns:" + ",".join(str(x) for x in v)
+
+
+def oneline(s):
+    return s.replace("\\", "\\\\").replace("\n", "\\n").replace("\r", "\\r").replace("\t", "\\t")
+
+
 def canon_line(s):
     """both sides' result lines, with error classes collapsed"""
     if s is None:
@@ -138,8 +157,174 @@ def gen_cases(ctx, n_docs, per_doc, depth):
     return cases
 
 
+def gen_id_cases(r, n_docs, per_doc, prefix="i"):
+    """the id() stream: documents with an internal DTD subset (ID / IDREF / IDREFS / CDATA / NMTOKEN(S) /
+    enumerated attributes, defaults, forward and dangling references, duplicate IDs) x expressions around
+    id().  `r` is the stream's OWN random.Random (seeded from ctx.rng after every other draw)."""
+    cases = []
+    k = 0
+    for di in range(n_docs):
+        d = xpgen.gen_id_doc(r, "small" if r.random() < 0.6 else "big")
+        nodes = xpgen.build_nodes(d["top"])
+        table = xpgen.id_table(nodes, d["decl"])
+        dtoks = xpgen.doc_tokens(d["written"])
+        ttok = xpgen.tok(d["dtd"])
+        elems = [n.id for n in nodes if n.kind == "elem"]
+        nonattr = [n.id for n in nodes if n.kind not in ("attr", "nsdecl")]
+        idvals = sorted(table) or ["s1"]
+        variables = {
+            "n1": ("num", r.choice([1.0, 12.0, 2.0, float("nan")])),
+            "s1": ("str", r.choice([" ", "  ", "\t", "\n"]).join(r.choice(idvals + ["nope"]) for _ in range(r.choice([1, 2, 3])))),
+            "b1": ("bool", r.random() < 0.5),
+            "ns1": ("nodes", sorted(r.sample(nonattr, min(len(nonattr), r.randrange(0, 4))))),
+            "e1": ("nodes", []),
+        }
+        vfield = ";".join("%s=%s" % (name, {"num": lambda v: "n:" + ("nan" if v != v else xpgen.dbits(v)),
+                                              "str": lambda v: "s:" + xpgen.tok(v),
+                                              "bool": lambda v: "b:%d" % v,
+                                              "nodes": lambda v: "ns:" + ",".join(map(str, v))}[t](v))
+                          for name, (t, v) in variables.items())
+        # classes of the document (what the seeded / likely defects need in order to show)
+        types = {}
+        for el, ats in d["decl"].items():
+            for a, ty, dk, dv in ats:
+                types.setdefault((el, a), ty)
+        first_ref = {}
+        for n in nodes:
+            if n.kind == "attr" and n.parent is not None:
+                ty = types.get((n.parent.qname, n.qname), "CDATA")
+                if ty in ("IDREF", "IDREFS", "NMTOKEN", "NMTOKENS", "ENUM", "CDATA"):
+                    for t in n.value.split():
+                        first_ref.setdefault((ty, t), n.parent.id)
+        dcls = set()
+        for (ty, t), el in first_ref.items():
+            if ty in ("IDREF", "IDREFS"):
+                if t not in table:
+                    dcls.add("dangling-" + ty.lower())
+                elif el < table[t]:
+                    dcls.add("forward-" + ty.lower())
+                else:
+                    dcls.add("backward-" + ty.lower())
+        if d["dup"]:
+            dcls.add("duplicate-ids-allowed")
+        g = xpgen.IdExprGen(r, nodes, table, variables)
+        for _ in range(per_doc):
+            e = xpgen.fix_bare_root(g.gen())
+            cn = r.choice([n.id for n in nodes if n.kind != "nsdecl"]) if r.random() < 0.6 else r.choice(elems)
+            if r.random() < 0.5 and nodes[cn].parent is not None and nodes[cn].kind not in ("attr", "nsdecl"):
+                cl = [c.id for c in nodes[cn].parent.children]
+            else:
+                cl = sorted(set(r.sample(nonattr, min(len(nonattr), r.randrange(0, 4))) + [cn]))
+            s = xpgen.p_expr(e, r)
+            line = "%s%d|eval|D:%s|C:%d;%s|V:%s|N:p=%s;q=%s|X:%s|A:-|T:%s" % (
+                prefix, k, dtoks, cn, ",".join(map(str, cl)), vfield, xpgen.tok("urn:p"), xpgen.tok("urn:q"), xpgen.tok(s), ttok)
+            cases.append({"id": "%s%d" % (prefix, k), "line": line, "expr": e, "str": s, "nodes": nodes, "ctx": cn, "cl": cl,
+                          "vars": {n: v for n, (t, v) in variables.items()}, "nonbmp": False, "doc": dtoks, "ids": table,
+                          "cls": "id:" + e[0] + (":" + e[1] if e[0] == "fn" else ""), "dcls": sorted(dcls), "decl": d["decl"], "top": d["top"]})
+            k += 1
+    return cases
+
+
+def id_stream(ctx, impl, n_docs, per_doc, prefix="i"):
+    """returns (correspondence mismatches, oracle failures) of the id() stream"""
+    import random
+    r = random.Random(ctx.rng.getrandbits(64))
+    cases = gen_id_cases(r, n_docs, per_doc, prefix)
+    seen_doc = set()
+    for c in cases:
+        if c["doc"] not in seen_doc:
+            seen_doc.add(c["doc"])
+            for cl in c["dcls"]:
+                ctx.count("iddoc:" + cl)
+    ctx.cov.setdefault("samples", [])
+    ctx.cov["samples"] += [c["str"] for c in cases[:6]]
+    corr, orc = evaluate(ctx, cases, impl, None)
+    ctx.notes["id_stream_cases"] = ctx.notes.get("id_stream_cases", 0) + len(cases)
+    return cases, corr, orc
+
+
+def id_correspondence(ctx, impl, model, cases):
+    """the extracted model of the id() mechanism (coq/XpIdDefs.v: element-by-ID table built in SAX order +
+    FunctionID) against the library, on every case of the stream whose top-level expression is id(ARG): ARG is
+    evaluated by the library on its own (node-set -> its nodes, anything else -> its string conversion), the
+    model gets the tree the parser reports, the declared attribute types and that argument"""
+    sel = [c for c in cases if c["expr"][0] == "fn" and c["expr"][1] == "id" and len(c["expr"][2]) == 1]
+    if not sel:
+        return []
+    lines = []
+    for c in sel:
+        fs = c["line"].split("|")
+        fa = list(fs)
+        fa[0] = c["id"] + "a"
+        fa[6] = "X:" + xpgen.tok(xpgen.p_expr(c["expr"][2][0]))
+        lines += [c["line"], "|".join(fa)]
+    rc, res, raw = core.run_lines_parallel(impl, lines, sep="|")
+    mlines, want = [], {}
+    for c in sel:
+        main, aux = res.get(c["id"]), res.get(c["id"] + "a")
+        if main is None or aux is None:
+            continue
+        G = main.split("|")[0]
+        A = aux.split("|")
+        if not G.startswith("G:ns:") or "?" in G or not A[0].startswith("G:") or A[0].startswith("G:err") or len(A) < 4:
+            continue
+        if A[0].startswith("G:ns:"):
+            if "?" in A[0]:
+                continue
+            arg = "L:" + A[0][5:]
+        elif A[3].startswith("S:s:"):
+            arg = "S:" + A[3][4:]
+        else:
+            continue
+        types = {}
+        for el, ats in c["decl"].items():
+            for a, ty, dk, dv in ats:
+                types.setdefault((el, a), ty)
+        y = []
+        for n in c["nodes"]:
+            if n.kind in ("attr", "nsdecl") and n.parent is not None:
+                ty = types.get((n.parent.qname, n.qname), "CDATA")
+                if ty != "CDATA":
+                    y.append("%d=%s" % (n.id, xpgen.tok(xpgen._id_typestr(ty))))
+        mlines.append("%s|D:%s|Y:%s|%s" % (c["id"], xpgen.doc_tokens(c["top"]), ";".join(y), arg))
+        want[c["id"]] = (G[2:], c)
+    rc_m, res_m, raw_m = core.run_lines_parallel(model, mlines, sep="|")
+    corr = []
+    for cid, (g, c) in want.items():
+        ctx.cov["traces_validated_against_impl"] += 1
+        ctx.count("idcorr:" + ("nonempty" if g != "ns:" else "empty"))
+        m = res_m.get(cid)
+        if m != g:
+            corr.append({"expr": c["str"], "case": c["line"], "impl": g[:200], "model": (m or "")[:200]})
+    return corr
+
+
+def id_part(ctx, impl, orc, proved, known):
+    model, ok_m, mlog = core.build_model("xpid")
+    if not ok_m:
+        ctx.broken.append("id() model extraction/build failed: " + mlog[-500:])
+        model = None
+    n_docs, per_doc = (40, 30) if not ctx.thorough else (400, 60)
+    cases, c3, o3 = id_stream(ctx, impl, n_docs, per_doc)
+    corr = id_correspondence(ctx, impl, model, cases) if model else []
+    new = [o for o in o3 if not (o["known"] and o["known"] in known)]
+    if (corr or not proved or not model) and not new and not ctx.thorough:
+        # a broken tie (translator fact / proof / correspondence of the id() mechanism): widened search
+        ctx.escalated = True
+        cases2, c4, o4 = id_stream(ctx, impl, 300, 40, prefix="j")
+        if model:
+            corr += id_correspondence(ctx, impl, model, cases2)
+        o3 += o4
+    orc += o3
+    if corr:
+        ctx.broken.append("correspondence xpid: %d cases differ between the id() mechanism model and the library, e.g. %s" % (
+            len(corr), {k: corr[0][k] for k in ("expr", "impl", "model")}))
+        ctx.notes["id_correspondence_mismatches"] = [{k: c[k] for k in ("expr", "impl", "model")} for c in corr[:20]]
+    return cases
+
+
 def ref_eval(c, units=False, negzero=False):
-    ref = xpref.Ref(c["nodes"], c["vars"], units=units, negzero=negzero)
+    ref = xpref.Ref(c["nodes"], c["vars"], units=units, negzero=negzero, ids=c.get("ids"))
     pos = (c["cl"].index(c["ctx"]) + 1) if c["ctx"] in c["cl"] else 0
     try:
         return ref.ev(c["expr"], c["ctx"], pos, len(c["cl"]))
@@ -160,7 +345,7 @@ def evaluate(ctx, cases, impl, model):
     for c in cases:
         ri = res_i.get(c["id"])
         ctx.cov["evaluations"] += 1
-        ctx.count("top:" + c["expr"][0])
+        ctx.count(c.get("cls") or ("top:" + c["expr"][0]))
         distinct.add(c["str"])
         if ri is None:
             orc.append({"case": c["line"], "what": "no result from the library (crash?) for %s" % c["str"], "known": None})
@@ -190,7 +375,7 @@ def evaluate(ctx, cases, impl, model):
         if not ok:
             known = classify(c, got)
             orc.append({"case": c["line"], "what": "%s with context node %d: library %r, Recommendation %r" % (c["str"], c["ctx"], got, exp),
-                        "known": known, "expr": c["str"]})
+                        "known": known, "expr": c["str"], "expect": fmt_value(exp)})
     ctx.cov["distinct_nontrivial"] = ctx.cov.get("distinct_nontrivial", 0) + len(distinct)
     return corr, orc
 
@@ -368,18 +553,27 @@ def run(ctx):
         "the expression string and the AST handed to the model are printed from one generated tree; that the real compiler produces that AST is the compiler correspondence (xpc family)",
         "documents come from XalanSourceTree (indexed native tree); Xerces parsing is trusted",
         "ICU/glibc: only sprintf/atof (see C18)",
+        "id() stream: the documents carry an internal DTD subset (ATTLIST declarations only); Xerces' treatment of it (attribute-value "
+        "normalisation of non-CDATA types, defaulted attributes appended after the specified ones in declaration order, the type string "
+        "reported per attribute) is trusted and mirrored by xpgen.effective_tree; TAB/LF/CR are not generated inside values of non-CDATA "
+        "attributes; at most one ID attribute per element type (with two, the 'unique ID' of XPath 5.2.1 is ambiguous); duplicate ID values "
+        "ARE generated (5.2.1: the first element in document order has the ID)",
+        "id() model (coq/XpIdDefs.v): startElement events arrive in document order (ascending node number); StringTokenizer and "
+        "MutableNodeRefList::addNodeInDocOrder are modelled abstractly (split on the delimiter set / sorted duplicate-free insertion), "
+        "the correspondence run compares the extracted model with the library on every top-level id(ARG) case",
     ]
     ctx.notes["rule"] = ("expressions generated from a typed grammar (every operator, axis, node test, core function; "
                          "boundary streams for string search, comparisons hinging on equality, numbers) x generated documents x "
                          "context node/list; distinct = distinct expression strings; non-trivial = the expression contains at least "
                          "one operator, function call or location step (every generated case does); the malformed stream counts "
-                         "separately (malformed_checked)")
+                         "separately (malformed_checked); the id() stream (id_stream_cases; classes id:* and iddoc:*) uses documents with "
+                         "DTD-declared ID/IDREF/IDREFS/CDATA/NMTOKEN(S)/enumerated attributes and every argument shape of id()")
     ok_lib, liblog = core.build_lib("plain")
     if not ok_lib:
         ctx.broken.append("library does not build from the working tree: " + liblog[-500:])
         return ctx.finish(LEVEL)
     prop_files = [f for f in ("Properties_C02.v",) if os.path.exists(os.path.join(core.COQ, f))]
-    proved = ctx.prove(prop_files, ["GenNum"]) if prop_files else False
+    proved = ctx.prove(prop_files, ["GenNum", "GenXpId"]) if prop_files else False
     model, ok_m, mlog = core.build_model("xp")
     if not ok_m:
         ctx.broken.append("model extraction/build failed: " + mlog[-500:])
@@ -414,6 +608,10 @@ def run(ctx):
         corr += c2
         orc += o2
         new = [o for o in orc if not (o["known"] and o["known"] in known)]
+    # the id() stream (documents with an internal DTD subset).  Its random.Random is seeded from ctx.rng only
+    # HERE, after every other draw, so the streams above are what they were before this stream existed.
+    id_part(ctx, impl, orc, proved, known)
+    new = [o for o in orc if not (o["known"] and o["known"] in known)]
     for o in orc:
         if o["known"] and o["known"] in known:
             hits[o["known"]] = hits.get(o["known"], 0) + 1
@@ -426,16 +624,42 @@ def run(ctx):
         ctx.notes["correspondence_mismatches"] = [{k: c[k] for k in ("expr", "impl", "model")} for c in corr[:20]]
     if new:
         new.sort(key=lambda o: len(o["case"]))
-        txt = "\n".join("# %s\n%s" % (o["what"], o["case"]) for o in new[:40])
-        ctx.violation("oracle", "# C02 oracle failures: the library's value differs from the XPath 1.0 Recommendation\n# replay: feed a case line to .build/xp_plain\n" + txt)
+        txt = "\n".join("#expect G:%s   # %s\n%s" % (o.get("expect", "?"), oneline(o["what"]), o["case"]) for o in new[:40])
+        ctx.violation("oracle", "# C02 oracle failures: the library's value differs from the XPath 1.0 Recommendation\n"
+                      "# replay: python3 check.py C02 --replay <this file>  (each case line is preceded by '#expect <value the Recommendation prescribes>')\n" + txt)
     ctx.notes["oracle_failures"] = len(new)
     return ctx.finish(LEVEL, explanation="theorems over the Gallina model of the XPath interpreter + correspondence of the extracted model with the rebuilt library + reference evaluator written from the Recommendation")
 
 
 def replay(ctx, path):
+    """feeds the case lines of a replay file to the rebuilt library; a case line preceded by
+    '#expect <value>' is compared with that value (the one the Recommendation prescribes): exit status 1
+    when any differs"""
     core.build_lib("plain")
     impl, ok_h, hlog = core.build_harness("xp", "plain")
-    lines = [l for l in open(path) if l.strip() and not l.startswith("#")]
-    rc, out = core.sh([impl], input="".join(lines))
+    raw = open(path).read().split("\n")
+    lines = [l for l in raw if l.strip() and not l.startswith("#")]
+    expects = {}
+    for i, l in enumerate(raw):
+        if l.startswith("#expect ") and i + 1 < len(raw):
+            e = l.split()[1]
+            expects[raw[i + 1].split("|")[0]] = (e[2:] if e.startswith("G:") else e, l.partition("# ")[2])
+    rc, out = core.sh([impl], input="\n".join(lines) + "\n")
     print(out)
-    return 0
+    res = {}
+    for l in out.split("\n"):
+        if "|" in l:
+            res[l.split("|", 1)[0]] = l.split("|", 1)[1]
+    bad = 0
+    for cid, (exp, what) in expects.items():
+        got = (res.get(cid) or "crash").split("|")[0]
+        got = got[2:] if got.startswith("G:") else got
+        g, e = parse_value(got), parse_value(exp)
+        ok = (g == "err" and e == "err") or (g != "err" and e != "err" and same_value(g, e))
+        if exp == "?" or exp.startswith("ns:?"):
+            continue
+        print("%s %s: library %s, expected %s%s" % ("PASS" if ok else "FAIL", cid, got[:120], exp[:120], ("   # " + what[:200]) if not ok else ""))
+        bad += 0 if ok else 1
+    if expects:
+        print("replay: %d of %d cases deviate" % (bad, len(expects)))
+    return 1 if bad else 0
